@@ -128,3 +128,42 @@ Definition show_state (c : cache) :=
 
 Definition model_trace (fx : bool) (g : zcfg) (ops : list zop) :=
   map (fun rc => (fst rc, show_state (snd rc))) (trace fx (init_of g) ops).
+
+(** ** WrapperCache of a sliding-window cache and a plain one *)
+Definition is_fwd (r : out) : bool := match r with OFwd _ => true | _ => false end.
+
+Fixpoint first_diff_w (fx : bool) (w : cache * cache) (i : nat) (steps : list (zop * (zobs * zobs))) : option nat :=
+  match steps with
+  | [] => None
+  | (o, (b0, b1)) :: t =>
+      let '(w', r0, r1) := wstep fx w (to_op o) in
+      match r0 with
+      | OPanic => match o_out b0 with BPanic => None | _ => Some i end
+      | _ => if eqb_out r0 (o_out b0) && (if is_fwd r0 then eqb_out r1 (o_out b1) else true)
+                && eqb_state (fst w') b0 && eqb_state (snd w') b1
+             then first_diff_w fx w' (S i) t else Some i
+      end
+  end.
+
+Definition init_w (g : zcfg) : cache * cache :=
+  (init_of g,
+   init None (Z.to_nat (z_maxseq g)) (Z.to_nat (z_capacity g)) (Z.to_nat (z_maxbatch g))
+        (Z.to_nat (z_cpad g)) (Z.to_nat (z_bpad g)) (z_shift g)).
+
+Definition chk_whistory (fx : bool) (g : zcfg) (n0 n1 : Z) (steps : list (zop * (zobs * zobs))) : bool :=
+  let w := init_w g in
+  (Z.of_nat (length (cells (fst w))) =? n0) && (Z.of_nat (length (cells (snd w))) =? n1) &&
+  match first_diff_w fx w 0 steps with None => true | Some _ => false end.
+
+Definition where_diff_w (fx : bool) (g : zcfg) (steps : list (zop * (zobs * zobs))) : option nat :=
+  first_diff_w fx (init_w g) 0 steps.
+
+Fixpoint trace_w (fx : bool) (w : cache * cache) (ops : list zop) : list (out * out * (cache * cache)) :=
+  match ops with
+  | [] => []
+  | o :: t => let '(w', r0, r1) := wstep fx w (to_op o) in
+              (r0, r1, w') :: match r0 with OPanic => [] | _ => trace_w fx w' t end
+  end.
+
+Definition model_trace_w (fx : bool) (g : zcfg) (ops : list zop) :=
+  map (fun x => let '(r0, r1, w) := x in (r0, r1, show_state (fst w), show_state (snd w))) (trace_w fx (init_w g) ops).
